@@ -75,6 +75,12 @@ type NetSpec struct {
 	// instead of ~1), which gives the per-block difficulty adjustment enough
 	// resolution for chain length and accumulated work to come apart.
 	Hard int `json:"hard,omitempty"`
+	// Calm starts the difficulty estimator in equilibrium (initial estimated
+	// hashrate = one block of initial difficulty per block interval) instead of
+	// the test network's very high initial estimate, under which the difficulty
+	// rises at the maximum rate whatever the timestamps are. With Calm, fast and
+	// slow branches really get different difficulties.
+	Calm bool `json:"calm,omitempty"`
 }
 
 // Network builds the consensus network and the genesis block of a case.
@@ -90,6 +96,10 @@ func (ns NetSpec) Network() (*consensus.Network, types.Block) {
 		n.InitialTarget = types.BlockID{0x00, 0x10} // ~4096
 	}
 	n.BlockInterval = time.Second
+	if ns.Calm {
+		n.HardforkASIC.OakTime = time.Second
+		n.HardforkASIC.OakTarget = n.InitialTarget
+	}
 	n.MaturityDelay = uint64(clamp(ns.Maturity, 1, 10))
 	n.HardforkDevAddr.Height = 1
 	n.HardforkTax.Height = 1
